@@ -880,7 +880,7 @@ pub fn run(args: &Args) -> i32 {
     check.note("exhaustive", json!({"two_streams_x_three_ops": "all 20 op merges x eager/late readers x {both opened by A, one by each side} x {mplex, yamux}", "overall": false}));
     // PRNG
     let only_case: Option<u64> = args.extra.get("case").and_then(|s| s.parse().ok());
-    let n = util::budget(args, 2_400, 120_000, 4);
+    let n = util::budget(args, 2_400, 40_000, 4);
     vmon::par_cases(&check, n, args.threads, |i, rng| {
         let kind = if i % 2 == 0 { MuxKind::Mplex } else { MuxKind::Yamux };
         let big = !tiny && rng.chance(1, 3);
